@@ -149,7 +149,42 @@ fn special_forms() -> Vec<String> {
         "{% for i in xs %}{% macro mm() %}{{ i }}{{ y }}{% endmacro %}{% else %}{{ mm }}{% endfor %}",
         "{% for i in xs %}{% else %}{% for i in xs %}{% else %}{{ i }}{% endfor %}{% endfor %}",
     ];
-    v.iter().map(|s| s.to_string()).collect()
+    let mut out: Vec<String> = v.iter().map(|s| s.to_string()).collect();
+    // a name read in the header of a construct (evaluated in the enclosing scope) and bound at the top
+    // of the construct's own body: the binding must not hide the earlier read
+    let headers: [(&str, &str); 14] = [
+        ("{% macro ww(p) %}{{ caller(p) }}{% endmacro %}{% call(q) ww(a) %}", "{% endcall %}"),
+        ("{% macro ww(p) %}{{ caller(p) }}{% endmacro %}{% call(a) ww(a) %}{{ a }}", "{% endcall %}"),
+        ("{% macro ww(p, r=1) %}{{ caller(p) }}{% endmacro %}{% call(q) ww(1, r=a) %}", "{% endcall %}"),
+        ("{% macro ww() %}{{ caller() }}{% endmacro %}{% call ww() %}{{ a }}{% endcall %}{% call ww() %}", "{% endcall %}"),
+        ("{% for q in a %}", "{% endfor %}"),
+        ("{% for q in xs if a %}", "{% endfor %}"),
+        ("{% for q in xs %}", "{% else %}{{ a }}{% endfor %}"),
+        ("{% with q = a %}", "{% endwith %}"),
+        ("{% filter replace(a, 'z') %}", "{% endfilter %}"),
+        ("{% autoescape a %}", "{% endautoescape %}"),
+        ("{% if a %}", "{% endif %}"),
+        ("{% if false %}{% elif a %}", "{% endif %}"),
+        ("{% set q | replace(a, 'z') %}", "{% endset %}"),
+        ("{% macro mm(d=a) %}", "{% endmacro %}{{ mm() }}"),
+    ];
+    let binders = [
+        "",
+        "{% set a = 1 %}{{ a }}",
+        "{% set a %}x{% endset %}{{ a }}",
+        "{% for a in [1] %}{{ a }}{% endfor %}",
+        "{% with a = 1 %}{{ a }}{% endwith %}",
+        "{% macro a() %}{% endmacro %}{{ a() }}",
+        "{% set a, z = 1, 2 %}{{ a }}",
+        "{% if x %}{% set a = 1 %}{% endif %}{{ a }}",
+    ];
+    for (pre, post) in headers {
+        for b in binders {
+            out.push(format!("{}{}{}", pre, b, post));
+            out.push(format!("{}{}{}{{{{ a }}}}", pre, b, post));
+        }
+    }
+    out
 }
 
 /// names the engine reserves for itself; a template cannot sensibly receive them from the context
@@ -299,7 +334,7 @@ pub fn main(args: Args) -> i32 {
             level: "exploration",
             tier: args.tier,
             seed: args.seed,
-            rule: format!("{} hand-enumerated assignment-bearing and expression forms (self-referential set, with, dotted set, unpacking, slices/subscripts, macro defaults/bodies/closures, call blocks with arguments, loops reading their own target, set-blocks, autoescape expressions, filter blocks, special names) plus every {} program of the depth-2 generator space{}; each rendered with a recording context object under all-keys, no-keys and every subset of up to 4 mentioned keys; every recorded key must be in undeclared_variables(false) (or a global) and be the head of a path of undeclared_variables(true). distinct non-trivial = distinct sources whose render looked up at least one key", specials.len(), if stride == 1 { "".to_string() } else { format!("{}th", stride) }, if args.tier == Tier::Thorough { " and every 211th depth-3 program" } else { "" }),
+            rule: format!("{} hand-enumerated assignment-bearing and expression forms (self-referential set, with, dotted set, unpacking, slices/subscripts, macro defaults/bodies/closures, call blocks with arguments, loops reading their own target, set-blocks, autoescape expressions, filter blocks, special names; 14 constructs reading a name in their header x 8 ways of binding the same name at the top of their body, with and without a read after the construct) plus every {} program of the depth-2 generator space{}; each rendered with a recording context object under all-keys, no-keys and every subset of up to 4 mentioned keys; every recorded key must be in undeclared_variables(false) (or a global) and be the head of a path of undeclared_variables(true). distinct non-trivial = distinct sources whose render looked up at least one key", specials.len(), if stride == 1 { "".to_string() } else { format!("{}th", stride) }, if args.tier == Tier::Thorough { " and every 211th depth-3 program" } else { "" }),
             exhaustive: true,
             bound: json!({"context_key_pool": pool_values().keys().collect::<Vec<_>>()}),
             assumptions: vec!["debug info is switched off (a failing render otherwise re-reads every mentioned name for its error report)".into(), "the reserved names loop/self/super/caller/varargs/kwargs are not judged".into(), "single-file templates only (include/import/extends are documented as out of scope of the analysis)".into()],
